@@ -257,7 +257,7 @@ def shards(tier, seed):
     sp = special_bytes()
     npairs = len(pair_sources(tier, sp))
     items += [('pairs', tier, i) for i in range(npairs)]
-    items += [('via', tier, seed)]
+    items += [('via', tier, seed), ('history', tier, seed)]
     return items
 
 
@@ -300,7 +300,46 @@ def run_shard(item):
                 roundtrip(fills, label, 33, b'-- t\n-- a\nfunction f(x) return x*2 end\nprint(f(%d))' % i, res,
                           ('via-' + via, i), via=via)
         res.sample({'family': 'via', 'writers': ['file.to_file', 'file.to_file over existing', 'p8tool writep8']})
+    elif kind == 'history':
+        path_history(res, '.p8')
+        res.sample({'family': 'history', 'ops': 'write A; read; write B to the same path; read; write A again; read'})
     return res
+
+
+def path_history(res, ext):
+    """Operation history on one real path: each read must return the cart written last (nothing cached by path)."""
+    from pico8.game import file as p8file
+    d = tempfile.mkdtemp(prefix='c03h_')
+    try:
+        path = os.path.join(d, 'same' + ext)
+        carts_ = []
+        for i in (3, 8, 3, 12):
+            fills, label = region_cart(i, 'quick')
+            carts_.append((fills, label, 20 + i, b'-- cart %d\nv=%d\n' % (i, i)))
+        for step, (fills, label, version, code) in enumerate(carts_):
+            res.evaluations += 1
+            res.nontriv(('history', ext, step))
+            case = {'tag': ['history', ext, step]}
+            g = carts.make_game(fills, version=version, code_lines=[code], label=label if ext == '.p8' else None)
+            try:
+                p8file.to_file(g, path)
+                g2 = p8file.from_file(path)
+            except Exception as e:
+                res.violation('C03|history|raise|%s' % type(e).__name__, 'step %d of write/read history on one path raised %r' % (step, e), case)
+                return
+            got = carts.game_regions(g2)
+            want = {n: bytes(fills[n]) for n in fills}
+            want['music'] = carts.mask_music(want['music']) if ext == '.p8' else want['music']
+            bad = [n for n in want if got[n] != want[n]]
+            code2 = b''.join(g2.lua.to_lines())
+            if bad or code2.rstrip(b'\n') != code.rstrip(b'\n') or g2.version != version:
+                res.violation('C03|history|stale|step%d' % step,
+                              'after writing cart %d over the same path, reading it returns %s of an earlier cart' % (
+                                  step, ', '.join(bad) or 'code/version'), case)
+                return
+            res.outcome(('history', step))
+    finally:
+        shutil.rmtree(d, ignore_errors=True)
 
 
 def replay(case):
@@ -308,6 +347,9 @@ def replay(case):
     tag = case['tag']
     kind = tag[0]
     tier = 'thorough'
+    if kind == 'history':
+        path_history(res, tag[1])
+        return [(s, v[0]) for s, v in res.violations.items()]
     if kind == 'regions':
         for t in ('quick', 'thorough'):
             fills, label = region_cart(tag[1], t)
